@@ -4,7 +4,7 @@
 //!   G:i:<path>  read `pointer(path)`
 //!   X:i:<path>:<op>[:<arg>..]  `pointer_mut(path)` then the operation on the target:
 //!        push:<val> pop insat:<n>:<val> remat:<n> swaprem:<n> trunc:<n> clear oins:<hexkey>:<val> orem:<hexkey>
-//!        take assign:<val> setk:<hexkey>:<val> seti:<n>:<val> orins:<hexkey>:<val>
+//!        take assign:<val> setk:<hexkey>:<val> seti:<n>:<val> orins:<hexkey>:<val> orinsw:<hexkey>:<val> orinswk:<hexkey>:<val>
 //!   path: `-` (empty) or segments `k<hexkey>` / `i<n>` joined by `/`
 //!   val : `v<hexdoc>` (freshly parsed) or `s<j>.<path>` (clone of a part of slot j)
 //! output per step: `result|dump of every slot|representation skeleton of every slot`, joined by `;`
@@ -125,7 +125,7 @@ fn parse_val(slots: &[Value], s: &str) -> Option<Value> {
 /// the value argument of an operation (every operation has at most one, always the last argument)
 fn val_arg(slots: &[Value], name: &str, args: &[&str]) -> Result<Option<Value>, ()> {
     match name {
-        "push" | "insat" | "oins" | "assign" | "setk" | "seti" | "orins" | "resize" | "append" => match args.last().and_then(|a| parse_val(slots, a)) {
+        "push" | "insat" | "oins" | "assign" | "setk" | "seti" | "orins" | "orinsw" | "orinswk" | "resize" | "append" => match args.last().and_then(|a| parse_val(slots, a)) {
             Some(v) => Ok(Some(v)),
             None => Err(()),
         },
@@ -223,6 +223,39 @@ fn apply(t: &mut Value, name: &str, args: &[&str], x: Option<Value>) -> String {
                 let k = key(0);
                 let r = o.entry(&k).or_insert(val(1));
                 format!("val:{}", d(r))
+            }
+            None => "panic".into(),
+        },
+        // `entry(k).or_insert_with(f)` / `or_insert_with_key(f)`: like `or_insert`, and the default is computed only for a vacant
+        // entry — `f` runs exactly once when the member is absent and not at all when it is present (an `f` that runs anyway
+        // can move values out of other live values); `or_insert_with_key` hands `f` the key of the entry
+        "orinsw" | "orinswk" => match t.as_object_mut() {
+            Some(o) => {
+                let k = key(0);
+                let present = o.contains_key(&k);
+                let calls = std::cell::Cell::new(0usize);
+                let keyok = std::cell::Cell::new(true);
+                let out = if name == "orinsw" {
+                    let r = o.entry(&k).or_insert_with(|| {
+                        calls.set(calls.get() + 1);
+                        val(1)
+                    });
+                    d(r)
+                } else {
+                    let r = o.entry(&k).or_insert_with_key(|kk| {
+                        calls.set(calls.get() + 1);
+                        keyok.set(kk == k.as_str());
+                        val(1)
+                    });
+                    d(r)
+                };
+                if calls.get() != if present { 0 } else { 1 } {
+                    format!("BAD(default-computed-{}-times-for-{}-entry)", calls.get(), if present { "an-occupied" } else { "a-vacant" })
+                } else if !keyok.get() {
+                    "BAD(default-got-another-key)".into()
+                } else {
+                    format!("val:{out}")
+                }
             }
             None => "panic".into(),
         },
@@ -544,7 +577,8 @@ fn gen_history(r: &mut Rng, len: usize, allow_empty_path: bool) -> String {
                             0 | 1 | 2 => format!("oins:{key}:{}", gen_val(r, &slots)),
                             3 | 4 => format!("orem:{key}"),
                             5 | 6 => format!("setk:{key}:{}", gen_val(r, &slots)),
-                            7 | 8 => format!("orins:{key}:{}", gen_val(r, &slots)),
+                            7 => format!("orins:{key}:{}", gen_val(r, &slots)),
+                            8 => format!("{}:{key}:{}", if r.chance(1, 2) { "orinsw" } else { "orinswk" }, gen_val(r, &slots)),
                             9 => match r.below(4) {
                                 0 => "clear".to_string(),
                                 1 => "retnn".to_string(),
@@ -664,7 +698,7 @@ pub fn gen(seed: u64, thorough: bool) {
     let kb = h("b");
     let uni_ops_obj = [
         format!("-:oins:{ka}:v33"), format!("-:orem:{ka}"), format!("k{ka}:take"), format!("k{ka}/i0:take"), format!("-:setk:{kb}:s0.k{ka}"),
-        format!("-:orins:{ka}:v33"), format!("-:orins:{}:v33", h("z")), "-:clear".to_string(), format!("k{kb}:setk:{ka}:s0.-"), format!("k{ka}:push:v33"),
+        format!("-:orins:{ka}:v33"), format!("-:orins:{}:v33", h("z")), format!("-:orinsw:{ka}:v34"), format!("-:orinsw:{}:v34", h("y")), format!("-:orinswk:{ka}:s0.-"), format!("-:orinswk:{}:s0.-", h("x")), "-:clear".to_string(), format!("k{kb}:setk:{ka}:s0.-"), format!("k{ka}:push:v33"),
     ];
     for a in uni_ops_obj.iter() {
         for b in uni_ops_obj.iter() {
